@@ -598,56 +598,68 @@ theorem C02_drain_clean (A B : Kcp) (D t0 : Nat) (ndA ndB : Bool) (hinit : Clean
   rw [SysC.run_append] at ht1 ⊢
   exact clean_drain_ever hc hw evs2 hr2 hq hns (by rw [run_D]; exact ht1)
 
-/-! ### the drain statement from an arbitrary consistent state is FALSE: the acked-head wedge
+/-! ### the drain statement from an arbitrary consistent state was FALSE: the acked-head wedge
 
-`parse_ack` only FLAGS a segment (`acked := true`); it leaves the send buffer when a later `una`
-passes it, and `shrink_buf` puts `snd_una` on the head of the buffer even if the head is flagged.  If
-B acknowledges a segment it could not yet deliver (receive queue full: the ACK carries `una = sn` and
-`wnd = 0`), the only carriers of the `una` that releases it are B's later frames — and when there is no
-later data, that is the single window update sent after the reader drained the queue.  Lose it, and
-let a stale frame (a reordered or duplicated earlier datagram with `wnd > 0`) disarm A's zero-window
-probe: both sides are silent for ever, A's `WaitSnd` stays positive, and — when the flagged segments
-fill `min(snd_wnd, rmt_wnd)` — nothing written afterwards is ever put on the wire.
-`SysC.wedgeState` is reached by that fault history (one reordering, one loss; `rcv_wnd = 1`);
-confirmed on the real code (`notes/C02_wedge_test.go.txt`). -/
+Found by the attempt to prove `C02_drain_full`; confirmed on the real code
+(`notes/C02_wedge_test.go.txt`).  Before the repair, `parse_ack` only FLAGGED a segment
+(`acked := true`), it left the send buffer when a later `una` passed it, and `shrink_buf` put
+`snd_una` on the head of the buffer even if the head was flagged.  If B acknowledges a segment it
+could not yet deliver (receive queue full: the ACK carries `una = sn` and `wnd = 0`), the only
+carriers of the `una` that releases it are B's later frames — and when there is no later data, that is
+the single window update sent after the reader drained the queue.  Lose it, and let a stale frame (a
+reordered or duplicated earlier datagram with `wnd > 0`) disarm A's zero-window probe: both sides are
+silent for ever, A's `WaitSnd` stays positive, and — when the flagged segments fill
+`min(snd_wnd, rmt_wnd)` — nothing written afterwards is ever put on the wire.
+
+Everything in this section is about the PRE-REPAIR `Input` (`Old.input`, `Old.step`, `Old.run` of
+Model/SysOld.lean: a verbatim copy of the definitions at the time the defect was found), so that it
+stays valid when the model follows the repaired code.  `SysC.wedgeState` is reached by the fault
+history `wedge1 … wedge3` (one reordering, one loss; `rcv_wnd = 1`, `D = 0`). -/
 
 /-- the state after the fault history is stuck -/
-theorem C02_wedge_stuck : SysC.Stuck SysC.wedgeState := by
+theorem C02_wedge_stuck_prerepair : SysC.Stuck SysC.wedgeState := by
   refine ⟨by decide, by decide, ⟨by decide, by decide, by decide, by decide, by decide, by decide⟩,
     ⟨by decide, by decide, by decide, by decide, by decide, by decide⟩, by decide, by decide⟩
 
-/-- **the wedge**: from `wedgeState`, for EVERY continuation on the perfect network — any schedule, any
-further `Send`s — A's send buffer still holds the flagged segment 2 (`WaitSnd ≥ 1`), nothing is ever
-admitted (`snd_nxt = 3`), no datagram is in flight and the reader has received nothing beyond the
-three bytes it already had -/
-theorem C02_wedge_forever (evs : List Sys.Ev) :
-    (Sys.run SysC.wedgeState evs).A.snd_buf.map (fun x => (x.sn, x.acked)) = [(2, true)] ∧
-    1 ≤ (Sys.run SysC.wedgeState evs).A.waitSnd ∧ (Sys.run SysC.wedgeState evs).A.snd_nxt = 3 ∧
-    (Sys.run SysC.wedgeState evs).ab = [] ∧ (Sys.run SysC.wedgeState evs).ba = [] ∧
-    (Sys.run SysC.wedgeState evs).got = [0, 1, 2] := by
-  obtain ⟨h1, h2, h3, h4⟩ := SysC.stuck_run evs _ C02_wedge_stuck
+/-- **the wedge (pre-repair)**: from `wedgeState`, for EVERY continuation on the perfect network — any
+schedule, any further `Send`s — A's send buffer still holds the flagged segment 2 (`WaitSnd ≥ 1`),
+nothing is ever admitted (`snd_nxt = 3`), no datagram is in flight and the reader has received nothing
+beyond the three bytes it already had -/
+theorem C02_wedge_forever_prerepair (evs : List Sys.Ev) :
+    (Old.run SysC.wedgeState evs).A.snd_buf.map (fun x => (x.sn, x.acked)) = [(2, true)] ∧
+    1 ≤ (Old.run SysC.wedgeState evs).A.waitSnd ∧ (Old.run SysC.wedgeState evs).A.snd_nxt = 3 ∧
+    (Old.run SysC.wedgeState evs).ab = [] ∧ (Old.run SysC.wedgeState evs).ba = [] ∧
+    (Old.run SysC.wedgeState evs).got = [0, 1, 2] := by
+  obtain ⟨h1, h2, h3, h4⟩ := SysC.stuck_run evs _ C02_wedge_stuck_prerepair
   refine ⟨by rw [h2]; decide, ?_, by rw [h4]; decide, h1.ab, h1.ba, by rw [h3]; decide⟩
   unfold waitSnd
   rw [h2]
   have : SysC.wedgeState.A.snd_buf.length = 1 := by decide
   omega
 
-/-- the hypotheses of `C02_drain_full` hold in the wedge state … -/
+/-- `C02_drain_full` with the pre-repair `Input` -/
+def C02_drain_full_prerepair : Prop :=
+  ∀ (s : Sys.State), C02_EndpointOk s.A → C02_EndpointOk s.B → s.A.conv = s.B.conv →
+    (∀ x ∈ s.A.snd_queue ++ s.A.snd_buf, x.frg.toNat < s.B.rcv_wnd.toNat) →
+    ∃ T : Nat, ∀ evs : List Sys.Ev, (∀ ev ∈ evs, ∀ b, ev ≠ .send b) →
+      s.now + T ≤ (Old.run s evs).now → (Old.run s evs).A.waitSnd = 0
+
+/-- its hypotheses hold in the wedge state … -/
 theorem C02_wedge_endpoints_ok : C02_EndpointOk SysC.wedgeState.A ∧ C02_EndpointOk SysC.wedgeState.B ∧
     SysC.wedgeState.A.conv = SysC.wedgeState.B.conv ∧
     (∀ x ∈ SysC.wedgeState.A.snd_queue ++ SysC.wedgeState.A.snd_buf, x.frg.toNat < SysC.wedgeState.B.rcv_wnd.toNat) := by
   unfold C02_EndpointOk TimerInv SegTimer
   decide
 
-/-- … so **`C02_drain_full` is refuted**: no bound `T` works, because the clock of the stuck system
-runs on (`SysC.stuck_rounds_now`) while `WaitSnd` stays 1 -/
-theorem C02_drain_refuted : ¬ C02_drain_full := by
+/-- … so **the drain statement was false before the repair**: no bound `T` works, because the clock of
+the stuck system runs on (`SysC.stuck_rounds_now`) while `WaitSnd` stays 1 -/
+theorem C02_drain_refuted_prerepair : ¬ C02_drain_full_prerepair := by
   intro h
   obtain ⟨a, b, c, d⟩ := C02_wedge_endpoints_ok
   obtain ⟨T, hT⟩ := h SysC.wedgeState a b c d
-  have hnow := SysC.stuck_rounds_now T SysC.wedgeState C02_wedge_stuck (by decide) (by decide)
+  have hnow := SysC.stuck_rounds_now T SysC.wedgeState C02_wedge_stuck_prerepair (by decide) (by decide)
   have := hT (SysC.stuckRounds T) (SysC.stuckRounds_nosend T) (by rw [hnow]; exact Nat.le_refl _)
-  have := (C02_wedge_forever (SysC.stuckRounds T)).2.1
+  have := (C02_wedge_forever_prerepair (SysC.stuckRounds T)).2.1
   omega
 
 end KcpVerif.Props
